@@ -1,8 +1,11 @@
-(* C05 groundwork about v2/index (Index.v): what Load builds, ForEach and GetAll on it,
-   Marshal / Unmarshal round trip.  (Lookup correctness = sortedness + sort.Search.) *)
+(* C05 groundwork about v2/index (Index.v): what Load builds as a list of buckets, ForEach over it is a
+   permutation of the records, when a loaded index is well-formed for Unmarshal, the compacted records are part
+   of the marshalled bytes.  The Marshal/Unmarshal round trip and lookup correctness are C11's theorems
+   (IndexRoundtrip / IndexLoad); idx_read_write here is a wrapper kept for the files of C19 that use it. *)
 From Coq Require Import Sorting.Sorted Sorting.Permutation.
 From GoCar Require Import Bytes Varint Cid Index.
 From GoCarProofs Require Import BytesFacts VarintFacts FinalBytes FinalOrder.
+From GoCarProofs Require IndexKv IndexRoundtrip.
 Ltac Zify.zify_post_hook ::= Z.div_mod_to_equations.
 
 (* ---- compact buckets ---------------------------------------------------------------------------- *)
@@ -74,71 +77,6 @@ Proof.
   intros Hw Hl. unfold swi_foreach. cbn [snd].
   apply (swi_foreach_f_spec w l Hw Hl l [] _ eq_refl).
   pose proof (length_compact_ge w l Hw Hl). lia.
-Qed.
-
-(* ---- GetAll on a sorted bucket finds every record with that digest ----------------------------------- *)
-Lemma sorted_nth {A} (R : A -> A -> Prop) (d : A) l : StronglySorted R l ->
-  forall a b, (a < b)%nat -> (b < length l)%nat -> R (nth a l d) (nth b l d).
-Proof.
-  induction 1 as [|x t Ht IH Hx]; intros a b Hab Hb; [cbn in Hb; lia|].
-  destruct b as [|b']; [lia|]. cbn [length] in Hb. destruct a as [|a']; cbn [nth].
-  - rewrite Forall_forall in Hx. apply Hx. apply nth_In. lia.
-  - apply IH; lia.
-Qed.
-
-Lemma swi_at_nth w l d0 i : 8 <= w -> Forall (rec_ok w) l -> (i < length l)%nat ->
-  swi_digest_at (w, compact l) (N.of_nat i) = r_digest (nth i l d0) /\
-  swi_off_at (w, compact l) (N.of_nat i) = r_off (nth i l d0).
-Proof.
-  intros Hw Hl Hi. destruct (nth_split l d0 Hi) as (pre & suf & Heq & Hlen).
-  rewrite Heq in Hl. pose proof (swi_at w pre (nth i l d0) suf Hw Hl) as H.
-  rewrite <- Heq, Hlen in H. exact H.
-Qed.
-
-Lemma swi_scan_eq_hits b d : forall fuel i j, i <= j -> j < swi_count b -> (N.to_nat (j - i) < fuel)%nat ->
-  (forall a, i <= a -> a <= j -> swi_digest_at b a = d) -> In (swi_off_at b j) (swi_scan_eq fuel b d i).
-Proof.
-  induction fuel as [|k IH]; intros i j Hij Hj Hfuel Hall; [lia|]. cbn [swi_scan_eq].
-  replace (i <? swi_count b) with true by lia.
-  rewrite (Hall i) by lia. rewrite bytes_eqb_refl.
-  destruct (N.eq_dec i j) as [->|Hne]; [left; reflexivity|].
-  right. apply IH; try lia. intros a H1 H2. apply Hall; lia.
-Qed.
-
-Lemma swi_getall_complete w l r : 8 <= w -> Forall (rec_ok w) l -> StronglySorted dle l ->
-  blen (compact l) < two63 -> In r l -> In (r_off r) (swi_getall (w, compact l) (r_digest r)).
-Proof.
-  intros Hw Hl Hs Hsmall Hin.
-  set (b := (w, compact l)). set (d := r_digest r). set (n := length l).
-  assert (Hc : swi_count b = N.of_nat n) by (apply swi_count_compact; assumption).
-  assert (Hnle : (n <= length (compact l))%nat) by (apply (length_compact_ge w); assumption).
-  assert (Hdg : forall i, (i < n)%nat -> swi_digest_at b (N.of_nat i) = r_digest (nth i l r)).
-  { intros i Hi. apply (swi_at_nth w l r i Hw Hl Hi). }
-  assert (Hle : forall i j, (i <= j)%nat -> (j < n)%nat ->
-                bytes_leb (swi_digest_at b (N.of_nat i)) (swi_digest_at b (N.of_nat j)) = true).
-  { intros i j Hij Hj. rewrite !Hdg by lia. destruct (Nat.eq_dec i j) as [->|Hne]; [apply bytes_leb_refl|].
-    apply (sorted_nth dle r l Hs i j); lia. }
-  set (f := fun i => bytes_leb d (swi_digest_at b i)).
-  assert (Hmono : forall a c, a <= c -> c < N.of_nat n -> f a = true -> f c = true).
-  { intros a c Hac Hcn Hfa. unfold f in *. eapply bytes_leb_trans; [exact Hfa|].
-    replace a with (N.of_nat (N.to_nat a)) by lia. replace c with (N.of_nat (N.to_nat c)) by lia.
-    apply Hle; lia. }
-  assert (Hn70 : N.of_nat n < 2 ^ 70).
-  { unfold two63, blen in Hsmall. change (2 ^ 70) with 1180591620717411303424. lia. }
-  destruct (sort_search_spec (N.of_nat n) f Hn70 Hmono) as (Hr & Hlo & Hhi).
-  unfold swi_getall. cbv zeta. rewrite Hc. change (fun i : N => bytes_leb d (swi_digest_at b i)) with f.
-  set (idx := sort_search (N.of_nat n) f) in *.
-  destruct (In_nth l r r Hin) as (j & Hj & Hnth). fold n in Hj.
-  assert (Hfj : f (N.of_nat j) = true).
-  { unfold f. rewrite Hdg by exact Hj. rewrite Hnth. apply bytes_leb_refl. }
-  assert (Hidxj : idx <= N.of_nat j).
-  { destruct (N.of_nat j <? idx) eqn:E; [|lia]. rewrite Hlo in Hfj by lia. discriminate. }
-  destruct (swi_at_nth w l r j Hw Hl Hj) as [Hdj Hoj]. fold b in Hdj, Hoj. rewrite Hnth in Hdj, Hoj.
-  rewrite <- Hoj. apply swi_scan_eq_hits; try lia.
-  - cbn [snd b]. unfold b. cbn [snd]. lia.
-  - intros a Ha1 Ha2. apply bytes_leb_antisym.
-    + unfold d. rewrite <- Hdj. replace a with (N.of_nat (N.to_nat a)) by lia. apply Hle; lia.
-    + apply Hhi; lia.
 Qed.
 
 (* ---- what Load builds ------------------------------------------------------------------------------------ *)
@@ -243,36 +181,6 @@ Qed.
 (* GetAll on a loaded index finds every record *)
 Definition buckets_small (m : mwi) : Prop := Forall (fun b => blen (snd b) < two63) m.
 
-Lemma mwi_getall_load rs r : offs_ok rs -> buckets_small (mwi_load rs []) -> In r rs ->
-  In (r_off r) (mwi_getall (mwi_load rs []) (r_digest r)).
-Proof.
-  intros Ho Hsm Hin. unfold mwi_getall. rewrite mwi_load_eq in *.
-  unfold bucket_of at 1. rewrite (kv_get_map (fun g => compact (sort_by_digest g))).
-  destruct (group_by_find rec_width rs r Hin) as (g & Hget & Hrg).
-  unfold rec_width in Hget at 1. rewrite Hget. cbn [option_map].
-  destruct (group_by_ok rec_width rs) as [Hs _].
-  apply (kv_get_in _ Hs) in Hget.
-  destruct (group_rec_ok rs _ g Ho Hget) as [Hk Hall].
-  apply swi_getall_complete; try assumption.
-  - apply sort_by_digest_sorted.
-  - unfold buckets_small in Hsm. rewrite Forall_forall in Hsm.
-    apply (Hsm (bucket_of (blen (r_digest r) + 8, g))). apply in_map. exact Hget.
-  - apply (Permutation_in _ (Permutation_sym (sort_by_digest_perm g))). exact Hrg.
-Qed.
-
-Lemma mh_getall_load rs r : offs_ok rs ->
-  Forall (fun cm => buckets_small (snd cm)) (mh_load rs []) -> In r rs ->
-  In (r_off r) (mh_getall (mh_load rs []) (r_code r) (r_digest r)).
-Proof.
-  intros Ho Hsm Hin. unfold mh_getall. rewrite mh_load_eq in *.
-  rewrite (kv_get_map (fun g => mwi_load g [])).
-  destruct (group_by_find r_code rs r Hin) as (g & Hget & Hrg). rewrite Hget. cbn [option_map].
-  destruct (group_by_ok r_code rs) as [Hs _]. apply (kv_get_in _ Hs) in Hget.
-  apply mwi_getall_load; [apply (sub_offs_ok rs); [exact Ho|apply (group_sub r_code rs _ g Hget)]| |exact Hrg].
-  rewrite Forall_forall in Hsm. apply (Hsm (r_code r, mwi_load g [])).
-  apply (in_map (fun g => (fst g, mwi_load (snd g) []))) in Hget. exact Hget.
-Qed.
-
 (* ---- Marshal / Unmarshal ------------------------------------------------------------------------------------ *)
 Lemma le_dec_enc_take w n rest : n < 256 ^ N.of_nat w ->
   le_dec (take (N.of_nat w) (le_enc w n ++ rest)) = n /\ drop (N.of_nat w) (le_enc w n ++ rest) = rest.
@@ -282,132 +190,38 @@ Qed.
 
 Definition swi_ok (b : N * bytes) : Prop := 8 <= fst b /\ fst b <= max_width /\ blen (snd b) < two63.
 
-Lemma swi_unmarshal_marshal b rest : swi_ok b -> swi_unmarshal (swi_marshal b ++ rest) = Ok (b, rest).
-Proof.
-  destruct b as [w data]. intros (H8 & Hmax & Hsm). cbn [fst snd] in *.
-  unfold swi_unmarshal, swi_marshal. cbn [fst snd]. rewrite <- !app_assoc.
-  assert (Hw : w < 256 ^ N.of_nat 4) by (unfold max_width in Hmax; change (256 ^ N.of_nat 4) with 4294967296; lia).
-  assert (Hd : blen data < 256 ^ N.of_nat 8) by (unfold two63 in Hsm; change (256 ^ N.of_nat 8) with 18446744073709551616; lia).
-  destruct (le_dec_enc_take 4 w (le_enc 8 (blen data) ++ data ++ rest) Hw) as [E1 E2].
-  destruct (le_dec_enc_take 8 (blen data) (data ++ rest) Hd) as [E3 E4].
-  change (N.of_nat 4) with 4 in *. change (N.of_nat 8) with 8 in *.
-  replace (blen (le_enc 4 w ++ le_enc 8 (blen data) ++ data ++ rest) <? 4) with false
-    by (rewrite blen_app, blen_le_enc; lia).
-  rewrite E1, E2.
-  replace (blen (le_enc 8 (blen data) ++ data ++ rest) <? 8) with false by (rewrite blen_app, blen_le_enc; lia).
-  rewrite E3, E4.
-  replace (w <? 8) with false by lia. replace (max_width <? w) with false by lia.
-  replace (two63 <=? blen data) with false by lia.
-  replace ((0 <? blen data) && (blen (data ++ rest) =? 0)) with false by (rewrite blen_app; lia).
-  replace (blen (data ++ rest) <? blen data) with false by (rewrite blen_app; lia).
-  rewrite take_app, drop_app. reflexivity.
-Qed.
-
-Lemma keys_asc_app_lt {A} (m1 : list (N * A)) k v t : keys_asc (m1 ++ (k, v) :: t) ->
-  forall k' v', In (k', v') m1 -> k' < k.
-Proof.
-  induction m1 as [|[k1 v1] m1 IH]; intros Hs k' v' Hin; [destruct Hin|].
-  unfold keys_asc in *. cbn [map app fst] in Hs. inversion Hs as [|? ? Hs' Hall]; subst.
-  destruct Hin as [Hin|Hin].
-  - inversion Hin; subst. rewrite Forall_forall in Hall. apply Hall. rewrite map_app. apply in_or_app. right. left. reflexivity.
-  - eapply IH; eassumption.
-Qed.
-
-Lemma swis_unmarshal_marshal m2 : forall fuel m1 rest,
-  Forall swi_ok m2 -> keys_asc (m1 ++ m2) -> (length m2 < fuel)%nat ->
-  swis_unmarshal fuel (N.of_nat (length m2)) (concat (map swi_marshal m2) ++ rest) m1 = Ok (m1 ++ m2, rest).
-Proof.
-  induction m2 as [|[w data] t IH]; intros fuel m1 rest Hok Hs Hfuel; (destruct fuel as [|f]; [cbn in Hfuel; lia|]);
-    cbn [swis_unmarshal length map concat].
-  - cbn. rewrite app_nil_r. reflexivity.
-  - replace (N.of_nat (S (length t)) =? 0) with false by lia.
-    inversion Hok as [|? ? Hb Hok']; subst. rewrite <- app_assoc.
-    rewrite (swi_unmarshal_marshal (w, data) _ Hb). cbn [fst snd].
-    replace (N.of_nat (S (length t)) - 1) with (N.of_nat (length t)) by lia.
-    rewrite (kv_put_append w data m1 (keys_asc_app_lt m1 w data t Hs)).
-    rewrite IH; [rewrite <- app_assoc; reflexivity|exact Hok'|rewrite <- app_assoc; exact Hs|cbn [length] in Hfuel; lia].
-Qed.
-
 Definition mwi_good (m : mwi) : Prop :=
   Forall swi_ok m /\ keys_asc m /\ N.of_nat (length m) < two31.
-
-Lemma length_concat_ge {A} (F : A -> bytes) (l : list A) :
-  (forall x, In x l -> (1 <= length (F x))%nat) -> (length l <= length (concat (map F l)))%nat.
-Proof.
-  induction l as [|x t IH]; intros H; cbn [length map concat]; [lia|].
-  rewrite app_length. specialize (H x (or_introl eq_refl)) as Hx.
-  assert (length t <= length (concat (map F t)))%nat by (apply IH; intros; apply H; right; assumption). lia.
-Qed.
-
-Lemma mwi_unmarshal_marshal m rest : mwi_good m -> mwi_unmarshal (mwi_marshal m ++ rest) = Ok (m, rest).
-Proof.
-  intros (Hok & Hs & Hn). unfold mwi_unmarshal, mwi_marshal. rewrite <- app_assoc.
-  assert (Hc : N.of_nat (length m) < 256 ^ N.of_nat 4) by (unfold two31 in Hn; change (256 ^ N.of_nat 4) with 4294967296; lia).
-  destruct (le_dec_enc_take 4 _ (concat (map swi_marshal m) ++ rest) Hc) as [E1 E2].
-  change (N.of_nat 4) with 4 in *.
-  replace (blen (le_enc 4 (N.of_nat (length m)) ++ concat (map swi_marshal m) ++ rest) <? 4) with false
-    by (rewrite blen_app, blen_le_enc; lia).
-  rewrite E1, E2. replace (two31 <=? N.of_nat (length m)) with false by lia.
-  apply (swis_unmarshal_marshal m _ [] rest Hok Hs).
-  rewrite !app_length, le_enc_length.
-  assert (length m <= length (concat (map swi_marshal m)))%nat.
-  { apply length_concat_ge. intros b _. unfold swi_marshal. rewrite app_length, le_enc_length. lia. }
-  lia.
-Qed.
 
 Definition mh_good (m : mhidx) : Prop :=
   Forall (fun cm => fst cm < two64 /\ mwi_good (snd cm)) m /\ keys_asc m /\ N.of_nat (length m) < two31.
 
-Lemma mwcis_unmarshal_marshal m2 : forall fuel m1 rest,
-  Forall (fun cm => fst cm < two64 /\ mwi_good (snd cm)) m2 -> keys_asc (m1 ++ m2) -> (length m2 < fuel)%nat ->
-  mwcis_unmarshal fuel (N.of_nat (length m2))
-    (concat (map (fun cm => le_enc 8 (fst cm) ++ mwi_marshal (snd cm)) m2) ++ rest) m1 = Ok (m1 ++ m2, rest).
-Proof.
-  induction m2 as [|[code w] t IH]; intros fuel m1 rest Hok Hs Hfuel; (destruct fuel as [|f]; [cbn in Hfuel; lia|]);
-    cbn [mwcis_unmarshal length map concat fst snd].
-  - cbn. rewrite app_nil_r. reflexivity.
-  - replace (N.of_nat (S (length t)) =? 0) with false by lia.
-    inversion Hok as [|? ? [Hcode Hw] Hok']; subst. cbn [fst snd] in *. rewrite <- !app_assoc.
-    assert (Hc : code < 256 ^ N.of_nat 8) by (unfold two64 in Hcode; change (256 ^ N.of_nat 8) with 18446744073709551616; lia).
-    destruct (le_dec_enc_take 8 code (mwi_marshal w ++ concat (map (fun cm => le_enc 8 (fst cm) ++ mwi_marshal (snd cm)) t) ++ rest) Hc) as [E1 E2].
-    change (N.of_nat 8) with 8 in *.
-    replace (blen (le_enc 8 code ++ mwi_marshal w ++ concat (map (fun cm => le_enc 8 (fst cm) ++ mwi_marshal (snd cm)) t) ++ rest) <? 8)
-      with false by (rewrite blen_app, blen_le_enc; lia).
-    rewrite E1, E2. rewrite (mwi_unmarshal_marshal w _ Hw).
-    replace (N.of_nat (S (length t)) - 1) with (N.of_nat (length t)) by lia.
-    rewrite (kv_put_append code w m1 (keys_asc_app_lt m1 code w t Hs)).
-    rewrite IH; [rewrite <- app_assoc; reflexivity|exact Hok'|rewrite <- app_assoc; exact Hs|cbn [length] in Hfuel; lia].
-Qed.
-
-Lemma mh_unmarshal_marshal m rest : mh_good m -> mh_unmarshal (mh_marshal m ++ rest) = Ok (m, rest).
-Proof.
-  intros (Hok & Hs & Hn). unfold mh_unmarshal, mh_marshal. rewrite <- app_assoc.
-  assert (Hc : N.of_nat (length m) < 256 ^ N.of_nat 4) by (unfold two31 in Hn; change (256 ^ N.of_nat 4) with 4294967296; lia).
-  destruct (le_dec_enc_take 4 _ (concat (map (fun cm => le_enc 8 (fst cm) ++ mwi_marshal (snd cm)) m) ++ rest) Hc) as [E1 E2].
-  change (N.of_nat 4) with 4 in *.
-  replace (blen (le_enc 4 (N.of_nat (length m)) ++ concat (map (fun cm => le_enc 8 (fst cm) ++ mwi_marshal (snd cm)) m) ++ rest) <? 4)
-    with false by (rewrite blen_app, blen_le_enc; lia).
-  rewrite E1, E2. replace (two31 <=? N.of_nat (length m)) with false by lia.
-  apply (mwcis_unmarshal_marshal m _ [] rest Hok Hs).
-  rewrite !app_length, le_enc_length.
-  assert (length m <= length (concat (map (fun cm => le_enc 8 (fst cm) ++ mwi_marshal (snd cm)) m)))%nat.
-  { apply length_concat_ge. intros b _. rewrite app_length, le_enc_length. lia. }
-  lia.
-Qed.
-
 Definition idx_good (i : index) : Prop :=
   match i with IdxSorted m => mwi_good m | IdxMh m => mh_good m end.
 
-Theorem idx_read_write i rest : idx_good i -> idx_read (idx_write i ++ rest) = Ok (i, rest).
+(* the round trip itself is C11's theorem (IndexRoundtrip.idx_read_write); [idx_good] implies its [idx_wf] *)
+Lemma keys_asc_kv_sorted {A} (m : list (N * A)) : keys_asc m -> IndexKv.kv_sorted m.
 Proof.
-  intros Hg. unfold idx_read, idx_write. rewrite <- app_assoc.
-  destruct i as [m|m]; cbn [idx_codec idx_marshal idx_good] in *.
-  - rewrite read_uv_put_uv by (unfold codec_sorted, two63; lia).
-    cbn [N.eqb codec_sorted Pos.eqb]. rewrite (mwi_unmarshal_marshal m rest Hg). reflexivity.
-  - rewrite read_uv_put_uv by (unfold codec_mh_sorted, two63; lia).
-    change (codec_mh_sorted =? codec_sorted) with false. change (codec_mh_sorted =? codec_mh_sorted) with true. cbv iota.
-    rewrite (mh_unmarshal_marshal m rest Hg). reflexivity.
+  unfold keys_asc. induction m as [|kv t IH]; intros H; cbn [IndexKv.kv_sorted]; [exact I|].
+  cbn [map] in H. inversion H as [|? ? Hs Hall]; subst. split; [|apply IH; exact Hs].
+  rewrite Forall_forall in *. intros x Hx. apply Hall. apply in_map. exact Hx.
 Qed.
+
+Lemma mwi_good_wf m : mwi_good m -> IndexRoundtrip.mwi_wf m.
+Proof.
+  intros (Hok & Hs & Hn). split; [apply keys_asc_kv_sorted; exact Hs|]. split; [|exact Hn].
+  eapply Forall_impl; [|exact Hok]. intros b (H1 & H2 & H3). unfold IndexRoundtrip.swi_wf, max_alloc, two63 in *. repeat split; lia.
+Qed.
+
+Lemma idx_good_wf i : idx_good i -> IndexRoundtrip.idx_wf i.
+Proof.
+  destruct i as [m|m]; cbn [idx_good IndexRoundtrip.idx_wf]; [apply mwi_good_wf|].
+  intros (Hok & Hs & Hn). split; [apply keys_asc_kv_sorted; exact Hs|]. split; [|exact Hn].
+  eapply Forall_impl; [|exact Hok]. intros cm (H1 & H2). split; [exact H1|apply mwi_good_wf; exact H2].
+Qed.
+
+Theorem idx_read_write i rest : idx_good i -> idx_read (idx_write i ++ rest) = Ok (i, rest).
+Proof. intros H. apply IndexRoundtrip.idx_read_write. apply idx_good_wf. exact H. Qed.
 
 (* ---- a loaded index is good when its records are ------------------------------------------------------------ *)
 (* digests short enough for the 32 MiB record-width cap of Unmarshal, offsets and codes in 64 bits *)
@@ -486,4 +300,42 @@ Proof.
   pose proof (blen_concat_in (fun cm => le_enc 8 (fst cm) ++ mwi_marshal (snd cm)) m cm Hcm) as Hle.
   cbv beta in Hle. rewrite blen_app in Hle.
   match type of H with ?a + ?c < _ => match type of Hle with _ <= ?c' => change c' with c in Hle end end. lia.
+Qed.
+
+(* every record is part of the marshalled index: the compacted records are no longer than the index *)
+Lemma blen_concat_map_sum {A} (F G : A -> bytes) (l : list A) :
+  (forall x, In x l -> blen (G x) <= blen (F x)) -> blen (concat (map G l)) <= blen (concat (map F l)).
+Proof.
+  induction l as [|x t IH]; intros H; cbn [map concat]; [lia|]. rewrite !blen_app.
+  pose proof (H x (or_introl eq_refl)). assert (blen (concat (map G t)) <= blen (concat (map F t))) by (apply IH; intros; apply H; right; assumption). lia.
+Qed.
+
+Lemma compact_concat (gs : list (list irec)) : compact (concat gs) = concat (map compact gs).
+Proof. induction gs as [|g t IH]; cbn [concat map]; [reflexivity|]. rewrite compact_app, IH. reflexivity. Qed.
+
+Lemma blen_compact_perm a b : Permutation a b -> blen (compact a) = blen (compact b).
+Proof.
+  induction 1 as [|x l l' _ IH|x y l|l l' l'' _ IH1 _ IH2]; [reflexivity| | |congruence].
+  - rewrite !compact_cons, !blen_app, IH. reflexivity.
+  - rewrite !compact_cons, !blen_app. lia.
+Qed.
+
+Lemma compact_le_mwi rs : blen (compact rs) <= blen (mwi_marshal (mwi_load rs [])).
+Proof.
+  rewrite mwi_load_eq. unfold mwi_marshal. rewrite blen_app, map_map.
+  rewrite <- (blen_compact_perm _ _ (group_by_perm rec_width rs)). rewrite compact_concat, map_map.
+  pose proof (blen_concat_map_sum (fun g => swi_marshal (bucket_of g)) (fun g => compact (snd g)) (group_by rec_width rs)) as H.
+  cbv beta in H. eapply N.le_trans; [apply H|rewrite N.add_comm; apply N.le_add_r].
+  intros g _. unfold swi_marshal, bucket_of. cbn [fst snd]. rewrite !blen_app.
+  rewrite (blen_compact_perm _ _ (sort_by_digest_perm (snd g))). lia.
+Qed.
+
+Lemma compact_le_mh rs : blen (compact rs) <= blen (mh_marshal (mh_load rs [])).
+Proof.
+  rewrite mh_load_eq. unfold mh_marshal. rewrite blen_app, map_map.
+  rewrite <- (blen_compact_perm _ _ (group_by_perm r_code rs)). rewrite compact_concat, map_map.
+  pose proof (blen_concat_map_sum (fun g : N * list irec => le_enc 8 (fst g) ++ mwi_marshal (mwi_load (snd g) []))
+                                  (fun g => compact (snd g)) (group_by r_code rs)) as H.
+  cbv beta in H. cbn [fst snd]. eapply N.le_trans; [apply H|rewrite N.add_comm; apply N.le_add_r].
+  intros g _. rewrite blen_app. pose proof (compact_le_mwi (snd g)). lia.
 Qed.
